@@ -10,13 +10,8 @@ namespace Cider.C03
 open Cider
 
 /-- whenever a charged residue exists the documented family is non-empty … -/
-theorem candidates_nonempty (np nn n0 : Nat) (h : 0 < np + nn) : candidates np nn n0 ≠ [] := by
-  unfold candidates
-  have h0 : ¬ (np + nn = 0) := by omega
-  rw [if_neg h0]
-  split_ifs <;>
-    simp [candOneType, candNoNeut, candManyNeut, candGeneral, List.range_succ] <;>
-    split_ifs <;> simp [List.range_succ]
+theorem candidates_nonempty (np nn n0 : Nat) (h : 0 < np + nn) : candidates np nn n0 ≠ [] :=
+  Cider.candidates_nonempty np nn n0 h
 
 /-- … and every member is an arrangement of exactly that composition (so the code's
     "Error in DeltaMax calculation" raises are dead) -/
@@ -48,15 +43,10 @@ theorem candidates_composition (np nn n0 : Nat) :
     simp; omega
 
 theorem dmax_nonneg (np nn n0 : Nat) : 0 ≤ dmaxComp np nn n0 := by
-  unfold dmaxComp
-  split
-  · exact le_refl 0
-  · rename_i h
-    have hne := candidates_nonempty np nn n0 (by omega)
-    obtain ⟨c, hc⟩ := List.exists_mem_of_ne_nil _ hne
-    have := (foldl_dstep_spec (candidates np nn n0) (-1, none)).2.1 c hc
-    rw [dmaxFold_eq]
-    exact le_trans (Cider.C02.delta_nonneg c) this
+  by_cases h : np + nn = 0
+  · unfold dmaxComp; rw [if_pos h]
+  · obtain ⟨_, c, _, e, _⟩ := dmaxComp_spec np nn n0 (by omega)
+    rw [← e]; exact Cider.delta_nonneg c
 
 /-- **delta-max is the largest delta of the documented family**: an upper bound of every candidate's
     delta, attained by a candidate — for every composition with a charged residue; 0 otherwise -/
@@ -67,20 +57,7 @@ theorem dmax_eq_family_max (np nn n0 : Nat) :
       (∃ c ∈ candidates np nn n0, delta c = dmaxComp np nn n0 ∧ dmaxArgComp np nn n0 = some c)) := by
   constructor
   · intro h; unfold dmaxComp; rw [if_pos h]
-  · intro h
-    have h0 : ¬ (np + nn = 0) := by omega
-    unfold dmaxComp dmaxArgComp
-    rw [if_neg h0, if_neg h0, dmaxFold_eq]
-    obtain ⟨_, h2, h3⟩ := foldl_dstep_spec (candidates np nn n0) (-1, none)
-    refine ⟨h2, ?_⟩
-    rcases h3 with h3 | ⟨c, hc, e1, e2, _⟩
-    · exfalso
-      obtain ⟨c, hc⟩ := List.exists_mem_of_ne_nil _ (candidates_nonempty np nn n0 h)
-      have := h2 c hc
-      rw [h3] at this
-      have := Cider.C02.delta_nonneg c
-      simp at *; linarith
-    · exact ⟨c, hc, e1.symm, e2⟩
+  · intro h; exact dmaxComp_spec np nn n0 h
 
 /-- delta-max depends only on the numbers of positive, negative and neutral residues -/
 theorem dmax_composition_only (T : Tables) (s t : Seq) (h : s.Perm t) : seqDmax T s = seqDmax T t := by
